@@ -283,10 +283,12 @@ def instrumented(sim: Any, pcalls: list, carried: list, strays: list) -> Iterato
             patch = kw["patch"]
             want = list(_entry_var.get() or [])
             have = list(patch.fns)
+            same = len(want) == len(have) and all(a is b for a, b in zip(want, have))
             carried.append({"t": sim.now(), "uid": kw["body"].get("metadata", {}).get("uid"),
                             "remaining": [_fn_desc(f) for f in want], "patch_fns": [_fn_desc(f) for f in have],
-                            "same": len(want) == len(have) and all(a is b for a, b in zip(want, have)),
-                            "fields": observe._jsonable(dict(patch))})
+                            "same": same, "fields": observe._jsonable(dict(patch)),
+                            # the object as this cycle sees it (only needed when the patch does not start from the memory)
+                            "body": None if same else observe._jsonable(dict(kw["body"]))})
         return await orig_prc(**kw)
 
     c.before_request.append(before)
@@ -450,7 +452,7 @@ def _t(x: float) -> float:
 
 
 def gen_scenario(rng: Any, i: int) -> dict:
-    kind = rng.choice(["reuse", "reuse", "reuse-daemon", "conflict", "conflict", "conflict-own", "mixed", "overlap", "overlap"])
+    kind = rng.choice(["reuse", "reuse", "reuse-daemon", "conflict", "conflict", "conflict-own", "mixed", "overlap", "overlap", "stale-carry"])
     sc: dict[str, Any] = {"seed": i, "c08_kind": kind, "status_subresource": rng.random() < 0.5, "handlers": [],
                           "c08_handlers": [], "c08_slips": [], "faults": [], "timeline": [], "settings": {}}
     if rng.random() < 0.3:
@@ -493,7 +495,7 @@ def gen_scenario(rng: Any, i: int) -> dict:
         if kind == "conflict":
             sc["timeline"].append([1.0, "create", "a", body])
         how = rng.choice(["slip-edit", "slip-edit", "slip-fin", "fault", "slip-recreate", "slip-delete", "none",
-                          "slip-edit-then-error", "slip-edit-then-error"])
+                          "slip-edit-then-error", "slip-edit-then-error", "slip-fulfil", "slip-fulfil"])
         jk = rng.choice(["jsonBody", "jsonBody", "jsonStatus"]) if sc["status_subresource"] else "jsonBody"
         if how == "slip-edit-then-error":
             # conflict, then the cycle that carries the transformation fails on an API error, then a later event
@@ -503,6 +505,17 @@ def gen_scenario(rng: Any, i: int) -> dict:
             sc["timeline"].append([rng.choice([4.0, 6.0]), "edit", "a", {"metadata": {"labels": {"again": "1"}}}])
             sc["timeline"].append([12.0, "edit", "a", {"metadata": {"labels": {"again": "2"}}}])
             sc["end"] = 40.0
+        elif how == "slip-fulfil":
+            # the write that makes the JSON-patch conflict brings (a part of) what the handler's transformations ask for:
+            # what is carried is fulfilled on the next cycle's body (handed on all the same, the patching finds nothing to send) -- or only partly;
+            # sometimes the next cycle has dict content of its own (an on.event result), sometimes the effect is undone again
+            sc["c08_slips"].append({"kind": "jsonBody", "nth": 1, "op": ["addFin", [MARK]]})
+            if rng.random() < 0.5:
+                sc["handlers"].append({"kind": "event", "id": "ev", "script": [], "default": ["ok", {"n": 1}]})
+            if rng.random() < 0.3:
+                sc["c08_slips"].append({"kind": "mergeBody", "nth": rng.choice([2, 3]), "op": ["setFins", []]})
+            elif rng.random() < 0.3:
+                sc["timeline"].append([rng.choice([3.0, 5.0]), "fins", "a", []])
         elif how == "slip-edit":
             sc["c08_slips"].append({"kind": jk, "nth": rng.choice([1, 1, 2]), "op": ["edit", {"spec": {"x": 50}}]})
         elif how == "slip-fin":
@@ -536,6 +549,28 @@ def gen_scenario(rng: Any, i: int) -> dict:
         if rng.random() < 0.25:
             sc["c08_slips"].append({"kind": "jsonBody", "nth": rng.choice([2, 3]), "op": ["edit", {"metadata": {"labels": {"z": "1"}}}]})
         sc["end"] = 12.0
+    if kind == "stale-carry":
+        # a lagging watch-stream: the handler's transformation is refused (422) and carried, the next cycle works on an event that is
+        # older than the object -- on which the transformation is (or is not) fulfilled already -- with or without dict content of its own
+        d = rng.choice([1.0, 2.0, 3.0])
+        fns = rng.choice([[["ublock", MARK]], [["pblock", MARK]], [["ublock", MARK], ["setStatus", "observed", 1]], [["uallow", "late.io/f"]]])
+        sc["c08_handlers"].append({"kind": "create", "id": "cf", "sleep": d, "patch": rng.choice([{}, {"status": {"cf": "seen"}}]),
+                                   "fns": fns, "result": None})
+        if rng.random() < 0.5:
+            sc["handlers"].append({"kind": "event", "id": "ev", "script": [], "default": ["ok", {"n": 1}]})
+        sc["timeline"].append([1.0, "create", "a", body])
+        t1 = 1.0 + _t(rng.uniform(0.1, d * 0.5))
+        t2 = 1.0 + _t(rng.uniform(d * 0.5, d - 0.05))
+        first, second = rng.choice([([MARK], []), ([MARK], ["late.io/f"]), (["late.io/f"], [MARK]), ([MARK, "late.io/f"], [])])
+        sc["timeline"].append([t1, "fins", "a", first])
+        sc["timeline"].append([t2, "fins", "a", second])
+        sc["c08_slips"].append({"kind": "jsonBody", "nth": 1, "op": ["edit", {"spec": {"x": 50}}]})
+        lag = rng.choice([2.0, 4.0])
+        first_late = rng.choice([3, 3, 4])       # the events from this one on arrive late
+        sc["echo_delay"] = {"default": 0, "rules": [[n, None, lag] for n in range(first_late, first_late + 3)]}
+        if rng.random() < 0.4:
+            sc["timeline"].append([1.0 + d + lag + 3.0, "edit", "a", {"metadata": {"labels": {"late": "1"}}}])
+        sc["end"] = 1.0 + d + lag + 12.0
     if kind == "conflict-own":
         # kopf's own finalizer transformations under conflicts
         sc["handlers"].append({"kind": "delete", "id": "del", "script": [rng.choice(["ok", ["temp", 1.0], ["sleep", 0.5, "ok"]])], "default": "ok"})
@@ -583,16 +618,68 @@ def oracle(ctx: Ctx, sc: dict, tr: dict) -> None:
         ctx.oracle_fail(f"the operator wrote to the object outside patching.patch_obj at t={st['t']}: {st['method']} {st['path']} {st['payload']}",
                         rep, {"site": "patching.patch_obj", "shape": "a write to the object that bypasses the patching routine"})
         break
-    # the next cycle starts from what remained
-    for cr in tr["carried"]:
-        if not cr["same"]:
-            ctx.oracle_fail(f"cycle at t={cr['t']} for {cr['uid']}: memory.remaining_patch has {cr['remaining']}, the cycle's patch starts with {cr['patch_fns']}",
+    # the next cycle starts from what remained -- or what remained changes nothing in the object as that cycle sees it (its
+    # effect is present: the re-evaluation is done); never dropped while it would still change the body at hand; and what is
+    # dropped without a versioned request (forgotten at the head, or handed on and found to need no operation) holds for the
+    # freshest state around: the server's at that moment, and the one the cycle's own patching gets back
+    f4_uids: set = set()
+    for n, cr in enumerate(tr["carried"]):
+        if not cr["remaining"]:
+            continue
+        forgotten = not cr["same"]
+        if forgotten and (cr["patch_fns"] or not c08.o_noop(cr["remaining"], cr.get("body"))):
+            ctx.oracle_fail(f"cycle at t={cr['t']} for {cr['uid']}: memory.remaining_patch has {cr['remaining']}, the cycle's patch starts with {cr['patch_fns']}; "
+                            f"the cycle's body has finalizers {c08._fins(cr.get('body'))}, status {(cr.get('body') or {}).get('status')}",
                             rep, SIG_CARRY)
+            continue
+        later = [x["t"] for x in tr["carried"][n + 1:] if x["uid"] == cr["uid"]]
+        t_next = min(later) if later else 1e18
+        call = next((o for o in tr["patch_calls"] if o["orig"] is not None and o["orig_raw"]["metadata"]["uid"] == cr["uid"]
+                     and not (o.get("task") or "").startswith("runner of ") and cr["t"] <= o["t"] < t_next), None)
+        if not forgotten:
+            versioned = call is not None and (any(r["kind"].startswith("json") for r in call["reqs"]) or call["outcome"].get("kind") != "ok"
+                                              or call["outcome"].get("remaining") is not None or any(r["code"] == 404 for r in call["reqs"]))
+            ctx.count("closed_carried", "in the next cycle's patch" + ("" if versioned or call is None else ": no operation, nothing sent for it"))
+            if versioned or call is None:
+                continue
+        else:
+            ctx.count("closed_carried", "fulfilled on the cycle's body: forgotten")
+        body = cr.get("body") or (call or {}).get("orig_raw") or {}
+        body_rv = str((body.get("metadata") or {}).get("resourceVersion"))
+        how = "forgotten at the head of the cycle" if forgotten else "handed on, found to need no operation and dropped"
+        stored = [v for vs in tr["history"].values() for v in vs if v["uid"] == cr["uid"] and v["t"] < cr["t"]]
+        if stored and stored[-1]["event"] != "DELETED" and str(stored[-1]["rv"]) != body_rv:
+            cur = {"metadata": {"finalizers": list(stored[-1]["fins"] or [])}, "status": copy.deepcopy(stored[-1]["status"])}
+            if not c08.o_noop(cr["remaining"], cur):
+                ctx.oracle_fail(f"cycle at t={cr['t']} for {cr['uid']}: {cr['remaining']} remained and were {how} on the evidence of a STALE "
+                                f"body (version {body_rv}, finalizers {c08._fins(body)}); the server holds version {stored[-1]['rv']} since t={stored[-1]['t']} with "
+                                f"finalizers {stored[-1]['fins']}, status {stored[-1]['status']}: their effect is not there, they were neither sent nor carried on", rep,
+                                c08.SIG_F4 if forgotten else c08.SIG_F6)
+                f4_uids.add(cr["uid"])
+                continue
+        if forgotten and call is not None and call["outcome"].get("kind") == "ok":
+            seen = c08.freshest_seen(call)
+            if seen is not None and seen["metadata"]["uid"] == cr["uid"] and not c08.o_noop(cr["remaining"], seen):
+                ctx.oracle_fail(f"cycle at t={cr['t']} for {cr['uid']}: {cr['remaining']} remained and were forgotten at the head of the cycle (no-ops on its body: "
+                                f"finalizers {c08._fins(body)}); the object after the last accepted request of the cycle's patching (t={call['t']}) has finalizers "
+                                f"{c08._fins(seen)}, status {seen.get('status')}: their effect is not there, they were neither sent nor carried on", rep, c08.SIG_F4)
+                f4_uids.add(cr["uid"])
+    # the re-evaluation of what was carried is a part of the object's cycle: when a carried function cannot be evaluated on the
+    # new body (it raises), that is this object's error -- handled like an error of its patching (logged, throttled, retried),
+    # the transformation stays carried; an exception that leaves the cycle ends the worker and with it the whole operator
+    for cy in tr["cycles"]:
+        if cy.get("error") and cy["error"] != "CancelledError" and (cy.get("mem_before") or {}).get("remaining_patch") is not None \
+                and cy.get("apply") is None:
+            after = [hc for hc in tr["handler_calls"] if hc.get("t") is not None and hc["t"] > cy["t0"]]
+            ctx.oracle_fail(f"cycle {cy['i']} at t={cy['t0']} for {cy['uid']} started with a carried patch {cy['mem_before']['remaining_patch']} and was left by {cy['error']} "
+                            f"before anything was applied; handler calls of the operator after that moment: {len(after)}", rep, c08.SIG_F5)
+            break
     # a transformation a handler queued is applied exactly once (not lost, not duplicated)
     by_uid: dict[str, dict] = {}
     for cy in tr["cycles"]:
         by_uid[cy["uid"]] = cy
-    removed_by_foreign = any(s["op"][0] == "setFins" for s in sc.get("c08_slips", []))
+    removed_by_foreign = any(s["op"][0] == "setFins" for s in sc.get("c08_slips", [])) or \
+        any(e[1] == "fins" and MARK not in (e[3] if len(e) > 3 else []) for e in sc.get("timeline", []))
     for hc in tr["handler_calls"]:
         if hc.get("outcome") != "ok" or not hc.get("fns"):
             continue
@@ -602,6 +689,9 @@ def oracle(ctx: Ctx, sc: dict, tr: dict) -> None:
         final = next((o for k, o in tr["final_objects"].items() if "kopfexamples" in k and o["metadata"]["uid"] == uid), None)
         if final is None or pending or removed_by_foreign:
             ctx.count("closed_fn_effect", "pending-or-gone")
+            continue
+        if uid in f4_uids:
+            ctx.count("closed_fn_effect", "lost: reported above (judged on a body that was not the freshest)")
             continue
         # was the handler's result ever delivered (its cycle's patch call not cut by 404/exception)?
         delivered = [o for o in tr["patch_calls"] if o["orig"] and o["orig_raw"]["metadata"]["uid"] == uid and o["fns"]
@@ -888,7 +978,7 @@ def daemon_labels(tr: dict) -> tuple[list, list] | None:
             labels.append(lab)
             continue
         if o["interleaved"] or o["outcome"].get("kind") == "cancelled" or any(not isinstance(r["code"], int) or r["code"] >= 500 for r in o["reqs"]) \
-                or any(d[0] == "unknown" for d in o["fns"]):
+                or any(d[0] in ("unknown", "ufragile") for d in o["fns"]):
             break
         slips = {}
         for r in o["reqs"]:
@@ -909,7 +999,7 @@ def model_requests(tr: dict) -> list[tuple[list, dict]]:
     for idx, o in enumerate(tr["patch_calls"]):
         if o["outcome"]["kind"] == "cancelled" or o["orig"] is None or o["interleaved"]:
             continue
-        if any(d[0] == "unknown" for d in o["fns"]) or any(not isinstance(r["code"], int) or r["code"] >= 500 for r in o["reqs"]):
+        if any(d[0] in ("unknown", "ufragile") for d in o["fns"]) or any(not isinstance(r["code"], int) or r["code"] >= 500 for r in o["reqs"]):
             continue
         if any(r["slip"] is not None and r["slip"][0] == "addFin" for r in o["reqs"]):
             slips = {}
